@@ -152,7 +152,7 @@ def d_evolve(minimize, neg, cfg):
     m = mod("genetic")
     f = OracleFn(V3, neg)
     with Patched("genetic"):
-        res = m.evolve(f, [0, 1, 2], lambda a, b: (a + b) % 4, lambda c: (c + 1) % 4, minimize=minimize, elite_size=1, mutation_rate=0.5, adaptive_mutation=cfg["adaptive"], max_iter=cfg["max_iter"], tournament_k=cfg["k"], seed=1, **stopper(cfg.get("stop")))
+        res = m.evolve(f, [0, 1, 2], lambda a, b: (a + b) % 4, lambda c: (c + 1) % 4, minimize=minimize, elite_size=cfg.get("elite", 1), mutation_rate=0.5, adaptive_mutation=cfg["adaptive"], max_iter=cfg["max_iter"], tournament_k=cfg["k"], seed=1, **stopper(cfg.get("stop")))
     return res, f, None
 
 
@@ -204,7 +204,13 @@ DRIVERS = {
     "tabu_search": (d_tabu, [dict(moves=mv, cooldown=cd, max_iter=3, stop=s) for mv in (2, 3) for cd in (1, 2) for s in (0, 1, 2)], None),
     "lns": (d_lns, [dict(accept=a, max_iter=3 if a != "simulated_annealing" else 2, stop=s) for a in ("improving", "accept_all", "simulated_annealing") for s in (0, 1, 2)], None),
     "alns": (d_alns, [dict(accept="improving", max_iter=2, segment=sg, stop=s) for sg in (1, 2) for s in (0, 1)] + [dict(accept="simulated_annealing", max_iter=2, segment=1, stop=0, max_dev=3), dict(accept="accept_all", max_iter=3, segment=2, stop=0, max_dev=3)], None),
-    "evolve": (d_evolve, [dict(adaptive=ad, k=1, max_iter=1, stop=0) for ad in (False, True)] + [dict(adaptive=ad, k=2, max_iter=2, stop=s, max_dev=3) for ad in (False, True) for s in (0, 1)], None),
+    "evolve": (
+        d_evolve,
+        [dict(adaptive=ad, k=1, max_iter=1, stop=0, elite=el) for ad in (False, True) for el in (1, 0)]
+        + [dict(adaptive=ad, k=2, max_iter=2, stop=s, max_dev=3) for ad in (False, True) for s in (0, 1)]
+        + [dict(adaptive=False, k=1, max_iter=2, stop=0, elite=0, max_dev=3), dict(adaptive=False, k=2, max_iter=3, stop=0, elite=0, max_dev=2)],
+        None,
+    ),
     "differential_evolution": (
         d_de,
         [dict(strategy=st, max_iter=1, init=[[0.0], [1.0], [2.0], [3.0]], stop=0) for st in ("rand/1", "best/1")]
